@@ -99,9 +99,26 @@ func (e *Env) buildConcPlan(id int) *c12proc {
 				}
 			}
 		}
-		if r.Intn(4) == 0 {
-			add(plan.Op{Fn: "seed", S: hxs(m.Enc(r.Bytes(16), r.Intn(ref.NLang))), P: hxs("p" + itoa(w))})
+		// every worker calls every function at least once (and repeats some inputs
+		// that other workers use too: memo-style shared state would be hit concurrently)
+		common := rng.New(e.Seed, "C12-common-"+itoa(id))
+		cs := m.Enc(common.Bytes(16), common.Intn(ref.NLang))
+		if w < 32 || r.Intn(4) == 0 {
+			add(plan.Op{Fn: "seed", S: hxs(cs), P: hxs("shared")})
+			if r.Intn(2) == 0 {
+				add(plan.Op{Fn: "seed", S: hxs(m.Enc(r.Bytes(16), r.Intn(ref.NLang))), P: hxs("p" + itoa(w))})
+			}
 		}
+		ce := common.Bytes(32)
+		add(plan.Op{Fn: "enc", L: int64(common.Intn(ref.NLang)), E: hx(ce)})
+		add(plan.Op{Fn: "enc", L: int64(r.Intn(ref.NLang)), E: hx(r.Bytes(ref.EntSizes[r.Intn(5)]))})
+		add(plan.Op{Fn: "str", L: int64(r.Intn(ref.NLang))})
+		add(plan.Op{Fn: "str", L: int64(1000 + common.Intn(5))})
+		add(plan.Op{Fn: "str", L: int64(-1 - r.Intn(1000))})
+		for k := 0; k < 3; k++ {
+			pure()
+		}
+		add(plan.Op{Fn: "chkval", L: 2, S: hxs("legal winner thank year wave sausage worth useful legal winner thank yellow")})
 		add(plan.Op{Fn: "chk", L: int64([]int{-1, 10, 100}[r.Intn(3)]), S: hxs("abandon abandon abandon")})
 		p.conc.Workers = append(p.conc.Workers, ops)
 	}
